@@ -22,7 +22,23 @@ type countingFS struct {
 
 func (c *countingFS) Open(name string) (fs.File, error) {
 	atomic.AddInt64(&c.opens, 1)
+	if name == "broken.db" {
+		return &brokenFile{}, nil
+	}
 	return c.inner.Open(name)
+}
+
+// brokenFile delivers one good line and then fails: an I/O error in the middle of an included file.
+type brokenFile struct{ n int }
+
+func (b *brokenFile) Stat() (fs.FileInfo, error) { return nil, fs.ErrInvalid }
+func (b *brokenFile) Close() error               { return nil }
+func (b *brokenFile) Read(p []byte) (int, error) {
+	b.n++
+	if b.n == 1 {
+		return copy(p, "good A 10.0.0.7\n"), nil
+	}
+	return 0, fs.ErrPermission
 }
 
 var zoneFrags = []string{"$ORIGIN ", "$TTL ", "$INCLUDE ", "$GENERATE ", "$GENERATE 1-3 ", "$GENERATE 0-70000 ", "$INCLUDE self.db\n", "$INCLUDE /etc/passwd\n", "$INCLUDE ../x\n",
@@ -60,7 +76,8 @@ var hostileDefaultTTL = true
 
 func runHostile(text string, allowInclude bool, withFS bool, origin string, measure bool) zoneRun {
 	var zr zoneRun
-	cfs := &countingFS{inner: fstest.MapFS{"self.db": {Data: []byte("$INCLUDE self.db\nx A 10.0.0.1\n")}, "etc/passwd": {Data: []byte("secret A 10.9.9.9\n")}, "x": {Data: []byte("y A 10.0.0.2\n")}}}
+	cfs := &countingFS{inner: fstest.MapFS{"self.db": {Data: []byte("$INCLUDE self.db\nx A 10.0.0.1\n")}, "etc/passwd": {Data: []byte("secret A 10.9.9.9\n")}, "x": {Data: []byte("y A 10.0.0.2\n")},
+		"adir": {Mode: fs.ModeDir}, "adir/f": {Data: []byte("f A 10.0.0.3\n")}}}
 	done := make(chan struct{})
 	var before, after runtime.MemStats
 	if measure {
@@ -211,6 +228,21 @@ func runC07(c *Ctx) {
 			c.Pred("directed", "generate-terminates-near-int64", k.name, zr.records <= 2, fmt.Sprint(zr.records), "<= 2", true)
 		}
 		c.Pred("directed", "error-sticky", k.name, zr.afterErr == 0, fmt.Sprint(zr.afterErr), "0", true)
+	}
+	// an include target that cannot be read (a directory, a file whose Read fails): the error is reported, sticky,
+	// and nothing after the $INCLUDE line is handed out
+	for _, tgt := range []string{"adir", "broken.db", "missing.db"} {
+		for _, pre := range []string{"", "first A 10.0.0.1\n", "$TTL 60\nfirst A 10.0.0.1\n"} {
+			text := pre + "$INCLUDE " + tgt + "\nafter A 10.0.0.9\nlater A 10.0.0.10\n"
+			zr := runHostile(text, true, true, "example.org.", false)
+			maxRecs := strings.Count(pre, " A ")
+			if tgt == "broken.db" {
+				maxRecs++ // the line read before the failure may be delivered
+			}
+			c.Pred("directed", "include-io-error-reported", text, zr.errText != "" && !zr.panicked && !zr.hung, fmt.Sprint(zr.records, " records, error: ", zr.errText), "an error", true)
+			c.Pred("directed", "include-io-error-stops", text, zr.records <= maxRecs && zr.afterErr == 0 && zr.errStable,
+				fmt.Sprint(zr.records, " records, ", zr.afterErr, " after the error"), fmt.Sprint("<= ", maxRecs, " records, none after the error"), true)
+		}
 	}
 	// self-including file: depth limit
 	{
